@@ -10,6 +10,7 @@ Variants (all tasks take one argument x; `parse` tasks take a File):
   {"k": "arith", "mul": a, "add": b}            x*a + b
   {"k": "call", "callee": j, "shift": s, "add": b}     t_j(x + s) + b            (lazy)
   {"k": "call2", "callees": [j1, j2]}            t_j1(x) + t_j2(x + 1)          (lazy)
+  {"k": "call2s", "callees": [j1, j2]}           t_j1(x) + t_j2(x)              (lazy; same argument)
   {"k": "raise_if", "mod": m, "add": b}          ValueError if x % m == 0 else x + b
   {"k": "catch", "callee": j, "add": b}          catch(t_j(x), ValueError, recover) + b, recover -> -1
   {"k": "readfile", "callee": j, "file": p}      t_j(File(paths[p])) + x   (t_j must be a parse task)
@@ -93,6 +94,11 @@ class Family:
         if k == "call2":
             j1, j2 = v["callees"]
             return self.tasks[j1](x) + self.tasks[j2](x + 1)
+        if k == "call2s":
+            # both callees get the SAME argument: when they call a common task with it, the second
+            # call is a duplicate within the execution (answered by CSE)
+            j1, j2 = v["callees"]
+            return self.tasks[j1](x) + self.tasks[j2](x)
         if k == "raise_if":
             if x % v["mod"] == 0:
                 raise ValueError(f"bad {x}")
